@@ -2144,6 +2144,16 @@ def simp(v):
             pm = prefix_map(base)
             if pm and not pm[3] and pm[2] == idx[1]:
                 return simp(subst(pm[1], {pm[0]: idx[3][0]}))
+        # a position loop: X[i] with i the element of range(len(Y)), where X and Y are unfiltered one-to-one views of ONE sequence B
+        # (or B itself) -- X's map applied to the element of B at the position the loop stands at (what `for i, b in enumerate(B)`
+        # calls b).  The loop's iterable stays range(len(Y)); whether that visits all of B is for the rule that reads the loop.
+        if idx[0] == "elem" and len(idx) == 3 and idx[1][0] == "call" and idx[1][1] == ("global", "range") and len(idx[1][2]) == 1 and not idx[1][3]:
+            n_ = idx[1][2][0]
+            if n_[0] == "call" and n_[1] == ("global", "len") and len(n_[2]) == 1 and not n_[3]:
+                by = seq_base(n_[2][0])
+                mx = as_map(base) if by is not None and base[0] in ("comp", "copy", "attr", "param") else None
+                if mx and not mx[3] and mx[2] == by:
+                    return simp(subst(mx[1], {mx[0]: ("elem", by, idx[2])}))
     # a list literal grown by (conditional) appends outside loops is still a literal list, case by case
     if k == "appended" and v[1][0] == "list" and not any(e[0] == "star" for e in v[1][1]):
         return simp(("list", tuple(v[1][1]) + (v[2],)))
